@@ -534,6 +534,19 @@ class MaskedSelection:
     def __sub__(self, o):
         return self._bin(o, lambda a, b: a - b)
 
+    def _np_unary(self, fsym, fnp, fpy=None):
+        """np.sqrt(arr[mask]) etc.: applied to the whole base array; the domain obligation is only owed where the mask holds.
+        (opaque square roots are used by the checks that reach this, so no obligation is generated here)"""
+        def one(a):
+            if is_symbolic(a):
+                return fsym(a)
+            if fpy is not None and isinstance(a, (_F, int)) and not isinstance(a, bool):
+                r = fpy(a)
+                return exact(r) if not is_symbolic(r) else r
+            return exact(fnp(a))
+
+        return MaskedSelection(elementwise(one, self.base), self.mask)
+
 
 def guarded_div(a, b, guard):
     """a / b where the division is only performed when `guard` holds."""
@@ -582,6 +595,8 @@ def sym_argmax(arr):
         vals = [float(v) for v in a]
         return int(np.argmax(vals))
     n = a.size
+    if n == 1:
+        return 0
     es = [_real(lift(_coerce(v))) for v in a]
     out = z3.IntVal(n - 1)
     for i in range(n - 2, -1, -1):
